@@ -240,7 +240,11 @@ def main():
             sz = o["size"][1][0][0]
             spec = len(want) if isinstance(want, list) else None
             model_sz = extra[0][0] if extra and extra[0] else None
-            if sz != model_sz:
+            if not dom:
+                # outside dom_path (keys with '.', '[' or quotes) the model's lexer is not DuckDB's: only the Python oracle applies
+                if sz != spec and not (sz is None and spec == 0):
+                    known_or_report("C11-path-special-keys", f"array_size(v{path}) = {sz}, the document has {want!r} there", rep)
+            elif sz != model_sz:
                 report("size-model", f"array_size(v{path}) = {sz}, model {model_sz}", dict(rep, theorem="Props_C11.array_size_partial"), no_input=(sz == spec))
             elif sz != spec:
                 known_or_report("C11-array-size-empty", f"array_size(v{path}) = {sz} for {want!r}", rep)
